@@ -355,3 +355,18 @@ package forwarder
 //@ func init
 //@ property C04 C12
 //@ modifies **
+
+// ---- request fidelity (C01) ----
+
+// setEmptyUserAgent: no User-Agent is invented - when the client sent none,
+// an empty one is set so that the transport adds nothing; one the client sent
+// is kept; no other field is touched.
+//@ axiom canon("User-Agent") == "User-Agent"
+//@ func setEmptyUserAgent
+//@ property C01
+//@ requires req != nil && req.Header != nil
+//@ modifies req.Header[*], elems(string)
+//@ ensures result == nil
+//@ ensures forall k string :: k != "User-Agent" ==> (k in req.Header) == old(k in req.Header) && req.Header[k] == old(req.Header[k])
+//@ ensures old("User-Agent" in req.Header) ==> ("User-Agent" in req.Header) && req.Header["User-Agent"] == old(req.Header["User-Agent"])
+//@ ensures !old("User-Agent" in req.Header) ==> ("User-Agent" in req.Header) && len(req.Header["User-Agent"]) == 1 && req.Header["User-Agent"][0] == ""
